@@ -60,6 +60,8 @@ fn gap(a: Option<&T>, b: Option<&T>) -> Gap {
         (None, _) | (_, None) => Gap::Optional,
         (Some(T::Fn(_)), Some(T::L)) => Gap::Fixed,
         (Some(T::Num(_)), Some(T::Unit(_))) => Gap::Optional,
+        // two unit words next to each other multiply; without a blank they would be one word
+        (Some(T::Unit(_)), Some(T::Unit(_))) => Gap::Required,
         (_, Some(T::To)) | (Some(T::To), _) => Gap::Required,
         (_, Some(T::Op("+" | "-"))) | (Some(T::Op("+" | "-")), _) => Gap::Required,
         // directly after a unit the unit grammar would swallow `* / ^`
@@ -477,6 +479,25 @@ impl Prop for C06 {
                     }
                 }
             });
+        }
+        // unit words separated by blanks multiply, whatever the blanks are: every layout (all
+        // combinations of the homogeneous gaps, every 1- and 2-slot deviation to a mixed gap) of a
+        // number followed by two or three unit words, alone and as the left operand of a product
+        for ws in [vec!["newton", "second"], vec!["kg", "m"], vec!["N", "s"], vec!["kg", "m", "s^-2"], vec!["m", "s^-1"], vec!["kW", "h"], vec!["A", "s", "V"]] {
+            let unit = ws.join(" ");
+            let mut toks = vec![T::Num("3".into())];
+            for w in &ws {
+                toks.push(T::Unit(w.to_string()));
+            }
+            let tree = qty("3", &unit);
+            emit_all_layouts(&toks, &tree, sink);
+            emit_layouts("unit-words-dev", &toks, &tree, None, true, 2, sink);
+            let mut t2 = toks.clone();
+            t2.push(T::Op("*"));
+            t2.push(T::Num("2".into()));
+            t2.push(T::Unit("s".into()));
+            let tree2 = bin(tree.clone(), Op::Mul, qty("2", "s"));
+            emit_layouts("unit-words-dev", &t2, &tree2, None, true, 1, sink);
         }
     }
     fn check(&self, env: &mut Env, case: &Case) -> Verdict {
